@@ -240,7 +240,7 @@ def build_api (spec, early_loads = False, late_sources = False, plain_list = Fal
             w = geo.by_tag [g ['tag']]
             t = g ['taper']
             w.segtype   = int (t [0])
-            w.taper_min = (t [1] or 0) if (t [1] is not None or t [2] is not None) else None
+            w.taper_min = t [1]         # (a maximum alone is a maximum alone: the classes take either limit on its own)
             w.taper_max = t [2]
     media = None
     if media_objs is not None:
@@ -340,6 +340,10 @@ def build (spec, route = 'cli', **kw):
             else:
                 ld = MM.Impedance_Load (complex (*l ['z']))
             common.guarded (lambda: m.register_load (ld, idx), 'register_load')
+    # every sixth model is used with the time measurement of the library switched on (Mininec (..., t = True), -T):
+    # it reports durations on stderr and must not change anything else
+    if int (common.sha ([spec.get ('geo'), spec.get ('f')]), 16) % 6 == 0:
+        m.do_timing = True
     return m
 # end def build
 
@@ -631,10 +635,14 @@ def fam_free (rng, fam = None, seg_hi = 1 / 21., seg_lo = 1 / 100., nmax = 60, e
     """ free-space structure family; returns spec (geo + feeds list of
         candidate feed locations (at, dir)) without sources
     """
-    fams = ['dipole', 'vee', 'L', 'zig', 'star3', 'star4', 'loop', 'yagi', 'T', 'tdip', 'step']
+    fams = ['dipole', 'vee', 'L', 'zig', 'star3', 'star4', 'loop', 'yagi', 'T', 'tdip', 'step', 'varray']
     fam  = fam or str (rng.choice (fams))
     f, lam, segl, rad = pick_scale (rng, seg_lo, seg_hi)
     R = rot_matrix (rng)
+    if fam == 'varray':
+        # every wire exactly parallel to the z axis, at different places in the plane (phased verticals, a vertical
+        # with a parasitic one): nothing about the structure is symmetric about the axis
+        R = rot_z (rng.uniform (0, 2 * np.pi))
     T = rng.uniform (-1, 1, 3) * lam * float (rng.choice ([0, 0, 1, 10]))
     if not shift:
         T = T * 0
@@ -723,6 +731,14 @@ def fam_free (rng, fam = None, seg_hi = 1 / 21., seg_lo = 1 / 100., nmax = 60, e
             L = n * segl * (1 - 0.05 * i)
             y = i * max (lam * rng.uniform (0.1, 0.3), 2.5 * segl)
             add (n, [-L / 2, y, 0], [L / 2, y, 0], feed_at = n // 2)
+    elif fam == 'varray':
+        k = int (rng.integers (2, 4))
+        n = int (rng.integers (6, 16))
+        x = 0.0
+        for i in range (k):
+            L = n * segl * (1 - 0.06 * i)
+            add (n, [x, 0.3 * x * (i - 1), -L / 2], [x, 0.3 * x * (i - 1), L / 2], feed_at = n // 2)
+            x += max (lam * float (rng.uniform (0.1, 0.35)), 2.5 * segl)
     spec = dict (f = f, geo = geo, fam = fam, media = None, feeds = feeds, src = [], loads = [])
     return spec
 # end def fam_free
